@@ -26,6 +26,7 @@ EXPLANATION = (
 EXPLANATION += ' Added after the seeded-change rounds: ' + "D1 also: a caller leaves do_collaborative_call_once only as the winner or after it observed the state done; D5 also: a new ETS hash array is sized from the caller's own ticket; no user operation runs between appending an element to my_locals and marking it built (violated on the pinned tree: known findings)."
 EXPLANATION += ' Added in the third session (round-3 seeds and the findings they led to): ' + "D5 also: emptying the table of a per-instance-key container destroys and re-creates the native key (the only way to drop every thread's cached pointer); nothing can fail between the creation of a thread's element and the claim of its slot (violated: known finding)."
 EXPLANATION += ' Added later in the fourth round: ' + 'D5 also: a function of ets_base that gives table slots to keys accounts for them in my_count (increment, or a store whose value comes from the source container / a count); the result of creating the per-instance TLS key is examined.'
+EXPLANATION += ' Added in the fifth seeding round: ' + 'D5 also: ets_base::table_swap of every specialisation exchanges every data member its own methods use (derived from the accesses through this: the root, the count, and with ets_key_per_instance the native TLS key) with the same member of the other instance - a table that changes hands without its key leaves the threads cached slot pointers aimed into the other container.'
 ASSUMPTIONS = ['instantiations of drivers/algorithms.cpp (once flag with and without arguments, ETS with both key policies)']
 ND = ['one element per thread over all interleavings of first accesses and table growth', 'combine / iteration coverage']
 
@@ -37,6 +38,7 @@ def run(facts, rep):
     d5_ets(facts, rep)
     d5_key_count(facts, rep)
     d5_tls_key_creation_checked(facts, rep)
+    d5_swap_moves_the_whole_state(facts, rep)
 
 
 def witnesses(rep, tier):
@@ -420,3 +422,62 @@ def d5_tls_key_creation_checked(facts, rep):
                    ln=node.get('ln'), key_extra='key-create')
     if n < 1:
         raise AnalysisBroken('ets_base<ets_key_per_instance>: no pthread_key_create call found (the driver no longer instantiates it?)')
+
+
+def d5_swap_moves_the_whole_state(facts, rep):
+    """Move construction / assignment / swap of an enumerable_thread_specific exchange the slot tables of two containers through
+    ets_base::table_swap.  Everything that interprets a table travels with it: the element count, and - with
+    ets_key_per_instance - the native TLS key whose per-thread value points INTO that table (the cached slot of the calling
+    thread).  A table that changes hands without its key leaves every thread's cached pointer aimed at an element that now
+    belongs to the other container: local() of the target returns an element of the source ("each thread exactly one element"
+    - here two containers hand out the same one).  Rule (derived, no field list): the fields of an ets_base specialisation are
+    the members its own methods access through `this`; its table_swap exchanges every one of them with the same member of the
+    other instance (one call receiving both, or both being assigned)."""
+    n = 0
+    by_class = {}
+    for fn in facts.fns.values():
+        if fn.p.startswith(D1N + 'ets_base::') and fn.kind in ('method', 'ctor', 'dtor'):
+            by_class.setdefault(fn.q.rsplit('::', 1)[0], []).append(fn)
+    for cq, fns in sorted(by_class.items()):
+        swaps = [f for f in fns if f.p == D1N + 'ets_base::table_swap']
+        if not swaps:
+            continue
+        fields = set()
+        for f in fns:
+            for nd in f.nodes:
+                if nd.get('k') == 'member' and not nd.get('fn') and nd.get('base', -1) >= 0 and f.n(f.strip(nd['base'])).get('k') == 'this' \
+                   and (nd.get('cls') or '') == D1N + 'ets_base':
+                    fields.add(nd['n'])
+        if not fields:
+            raise AnalysisBroken('%s: no data members found' % cq)
+        for fn in swaps:
+            others = set(p['v'] for p in fn.d.get('params', []))
+
+            def side(x):
+                nd = fn.n(fn.strip(x))
+                if nd.get('k') != 'member' or nd.get('base', -1) < 0:
+                    return None
+                b = fn.n(fn.strip(nd['base']))
+                if b.get('k') == 'this':
+                    return ('this', nd['n'])
+                if b.get('k') == 'var' and b.get('v') in others:
+                    return ('other', nd['n'])
+                return None
+            exchanged = set()
+            for pos, s, node, d in calls(fn):
+                sides = [side(a) for a in node.get('a', [])]
+                for f_ in fields:
+                    if ('this', f_) in sides and ('other', f_) in sides:
+                        exchanged.add(f_)
+            written = set(side(l) for pos, s, l, r in assignments(fn))
+            for f_ in fields:
+                if ('this', f_) in written and ('other', f_) in written:
+                    exchanged.add(f_)
+            for f_ in sorted(fields):
+                n += 1
+                rep.ob('D5', 'K3', fn, 'table_swap exchanges %s together with the table' % f_, f_ in exchanged,
+                       'the slot table changes hands but %s stays behind: what interprets the table (element count / the TLS key whose '
+                       'per-thread value points into it) now belongs to the other container - after a move or swap local() hands out an '
+                       'element of the other container' % f_, key_extra='swap|%s|%s' % (cq[-40:], f_))
+    if n < 3:
+        raise AnalysisBroken('ets_base::table_swap: %d exchanged-field obligations (expected my_root, my_count, my_key)' % n)
